@@ -8,7 +8,7 @@
     it is returned next to the error, and the result is nil or zero on every
     error path."
 
-   All theorems are about [method_returns decode rs o] (Model/RestHandle.v):
+   All theorems are about [method_returns decode bv rs o] (Model/RestHandle.v):
    the literal transcription of the Results part of cookClient applied to the
    declared result list [rs], followed by the semantics of the template's
    method tail, for an arbitrary behaviour [decode] of encoding/json, an
@@ -33,17 +33,25 @@ Local Open Scope Z_scope.
    `R, *http.Response, error` with R unnamed and of the form *T, []T, [n]T or
    map[K]V; everything else is a fatal error *)
 Theorem C10_method_exists_iff_signature_accepted :
-  forall V X (decode : string -> body X -> dec_out V X) rs o,
-  wf_results rs = true ->
-  ((exists res, method_returns decode rs o = inr res) <-> accepted rs).
+  forall V X (decode : string -> body X -> dec_out V X) bv rs o,
+  wf_results rs = true -> scenario_ok bv o = true ->
+  ((exists res, method_returns decode bv rs o = inr (Some res)) <-> accepted rs).
 Proof. exact mr_exists_iff. Qed.
 Print Assumptions C10_method_exists_iff_signature_accepted.
 
 Theorem C10_rejected_signature_is_fatal :
-  forall V X (decode : string -> body X -> dec_out V X) rs o,
-  ~ accepted rs -> exists f, method_returns decode rs o = inl f.
+  forall V X (decode : string -> body X -> dec_out V X) bv rs o,
+  ~ accepted rs -> exists f, method_returns decode bv rs o = inl f.
 Proof. exact mr_rejected. Qed.
 Print Assumptions C10_rejected_signature_is_fatal.
+
+(* the only scenario without an answer: json.Marshal failing in a method that sends no body *)
+Theorem C10_marshal_failure_needs_a_body_verb :
+  forall V X (decode : string -> body X -> dec_out V X) rs x,
+  wf_results rs = true -> accepted rs ->
+  method_returns decode false rs (OFail StMarshal x) = inr None.
+Proof. exact mr_impossible_scenario. Qed.
+Print Assumptions C10_marshal_failure_needs_a_body_verb.
 
 (* what the template receives is the signature-level description of the result *)
 Theorem C10_cook_results_characterised : forall rs c,
@@ -57,25 +65,25 @@ Print Assumptions C10_cook_results_characterised.
    declarative account [spec_returns] (status classes as ranges, the declared
    result read off the signature) ---- *)
 Theorem C10_method_refines_spec :
-  forall V X (decode : string -> body X -> dec_out V X) rs o,
-  wf_results rs = true -> accepted rs ->
-  method_returns decode rs o = inr (spec_returns V X decode rs o, spec_events X rs o).
+  forall V X (decode : string -> body X -> dec_out V X) bv rs o,
+  wf_results rs = true -> accepted rs -> scenario_ok bv o = true ->
+  method_returns decode bv rs o = inr (Some (spec_returns V X decode rs o, spec_events X rs o)).
 Proof. exact method_returns_refines_spec. Qed.
 Print Assumptions C10_method_refines_spec.
 
 (* the returned tuple reads as (result?, response, error); a result position
    exists exactly when the signature declares one *)
 Theorem C10_return_shape :
-  forall V X (decode : string -> body X -> dec_out V X) rs o slots ev,
-  wf_results rs = true -> method_returns decode rs o = inr (slots, ev) ->
+  forall V X (decode : string -> body X -> dec_out V X) bv rs o slots ev,
+  wf_results rs = true -> method_returns decode bv rs o = inr (Some (slots, ev)) ->
   exists rv, view slots = Some rv /\ (rv_result rv = None <-> declared_result rs = None).
 Proof. exact mr_view. Qed.
 Print Assumptions C10_return_shape.
 
 (* ---- nil error exactly for 2xx whose body decodes ---- *)
 Theorem C10_nil_error_iff_2xx_and_body_decodes :
-  forall V X (decode : string -> body X -> dec_out V X) rs o slots ev rv,
-  wf_results rs = true -> method_returns decode rs o = inr (slots, ev) -> view slots = Some rv ->
+  forall V X (decode : string -> body X -> dec_out V X) bv rs o slots ev rv,
+  wf_results rs = true -> method_returns decode bv rs o = inr (Some (slots, ev)) -> view slots = Some rv ->
   (rv_err rv = SNil <->
    exists r, o = OResp r /\ 200 <= r_status r < 300 /\
      match declared_result rs with
@@ -89,8 +97,8 @@ Print Assumptions C10_nil_error_iff_2xx_and_body_decodes.
 (* 2xx, body decoded: the decoded value is the result (its address when the
    result is declared as a pointer), next to the response and a nil error *)
 Theorem C10_2xx_returns_decoded_value :
-  forall V X (decode : string -> body X -> dec_out V X) rs r ty p v de slots ev,
-  wf_results rs = true -> method_returns decode rs (OResp r) = inr (slots, ev) ->
+  forall V X (decode : string -> body X -> dec_out V X) bv rs r ty p v de slots ev,
+  wf_results rs = true -> method_returns decode bv rs (OResp r) = inr (Some (slots, ev)) ->
   200 <= r_status r < 300 -> declared_result rs = Some (ty, p) ->
   decode ty (r_body r) = (v, de) -> (forall x, de <> Some (DOther x)) ->
   slots = [if p then SAddr v else SVal v; SResp r; SNil].
@@ -98,8 +106,8 @@ Proof. exact mr_success. Qed.
 Print Assumptions C10_2xx_returns_decoded_value.
 
 Theorem C10_2xx_without_result :
-  forall V X (decode : string -> body X -> dec_out V X) rs r slots ev,
-  wf_results rs = true -> method_returns decode rs (OResp r) = inr (slots, ev) ->
+  forall V X (decode : string -> body X -> dec_out V X) bv rs r slots ev,
+  wf_results rs = true -> method_returns decode bv rs (OResp r) = inr (Some (slots, ev)) ->
   200 <= r_status r < 300 -> declared_result rs = None ->
   slots = [SResp r; SNil].
 Proof. exact mr_success_no_result. Qed.
@@ -109,9 +117,9 @@ Print Assumptions C10_2xx_without_result.
    empty stream with io.EOF and leaves the variable untouched: the io.EOF rule
    of the template turns that into success) *)
 Theorem C10_empty_body_gives_zero_value :
-  forall V X (decode : string -> body X -> dec_out V X) (zero : string -> V) rs r ty p slots ev,
+  forall V X (decode : string -> body X -> dec_out V X) (zero : string -> V) bv rs r ty p slots ev,
   (forall t, decode t {| b_data := ""; b_fault := None |} = (zero t, Some DEof)) ->
-  wf_results rs = true -> method_returns decode rs (OResp r) = inr (slots, ev) ->
+  wf_results rs = true -> method_returns decode bv rs (OResp r) = inr (Some (slots, ev)) ->
   200 <= r_status r < 300 -> declared_result rs = Some (ty, p) ->
   r_body r = {| b_data := ""; b_fault := None |} ->
   slots = [if p then SAddr (zero ty) else SVal (zero ty); SResp r; SNil].
@@ -120,8 +128,8 @@ Print Assumptions C10_empty_body_gives_zero_value.
 
 (* 2xx whose body does not decode: json's error unchanged, nil result, the response *)
 Theorem C10_2xx_decode_error :
-  forall V X (decode : string -> body X -> dec_out V X) rs r ty p v x slots ev,
-  wf_results rs = true -> method_returns decode rs (OResp r) = inr (slots, ev) ->
+  forall V X (decode : string -> body X -> dec_out V X) bv rs r ty p v x slots ev,
+  wf_results rs = true -> method_returns decode bv rs (OResp r) = inr (Some (slots, ev)) ->
   200 <= r_status r < 300 -> declared_result rs = Some (ty, p) ->
   decode ty (r_body r) = (v, Some (DOther x)) ->
   slots = [SNil; SResp r; SErr (EForeign x)].
@@ -130,8 +138,8 @@ Print Assumptions C10_2xx_decode_error.
 
 (* ---- the three error classes, for EVERY status in Z ---- *)
 Theorem C10_4xx_client_error :
-  forall V X (decode : string -> body X -> dec_out V X) rs r slots ev rv,
-  wf_results rs = true -> method_returns decode rs (OResp r) = inr (slots, ev) -> view slots = Some rv ->
+  forall V X (decode : string -> body X -> dec_out V X) bv rs r slots ev rv,
+  wf_results rs = true -> method_returns decode bv rs (OResp r) = inr (Some (slots, ev)) -> view slots = Some rv ->
   400 <= r_status r < 500 ->
   rv_err rv = SErr (EText ("client error " ++ dec (r_status r) ++ ": " ++ b_data (r_body r))) /\
   rv_resp rv = SResp r /\ (rv_result rv = None \/ rv_result rv = Some SNil).
@@ -139,8 +147,8 @@ Proof. exact mr_client_error. Qed.
 Print Assumptions C10_4xx_client_error.
 
 Theorem C10_5xx_server_error :
-  forall V X (decode : string -> body X -> dec_out V X) rs r slots ev rv,
-  wf_results rs = true -> method_returns decode rs (OResp r) = inr (slots, ev) -> view slots = Some rv ->
+  forall V X (decode : string -> body X -> dec_out V X) bv rs r slots ev rv,
+  wf_results rs = true -> method_returns decode bv rs (OResp r) = inr (Some (slots, ev)) -> view slots = Some rv ->
   500 <= r_status r ->
   rv_err rv = SErr (EText ("server error " ++ dec (r_status r) ++ ": " ++ b_data (r_body r))) /\
   rv_resp rv = SResp r /\ (rv_result rv = None \/ rv_result rv = Some SNil).
@@ -148,8 +156,8 @@ Proof. exact mr_server_error. Qed.
 Print Assumptions C10_5xx_server_error.
 
 Theorem C10_other_status_not_supported :
-  forall V X (decode : string -> body X -> dec_out V X) rs r slots ev rv,
-  wf_results rs = true -> method_returns decode rs (OResp r) = inr (slots, ev) -> view slots = Some rv ->
+  forall V X (decode : string -> body X -> dec_out V X) bv rs r slots ev rv,
+  wf_results rs = true -> method_returns decode bv rs (OResp r) = inr (Some (slots, ev)) -> view slots = Some rv ->
   r_status r < 200 \/ 300 <= r_status r < 400 ->
   rv_err rv = SErr (EText ("not supported error " ++ dec (r_status r))) /\
   rv_resp rv = SResp r /\ (rv_result rv = None \/ rv_result rv = Some SNil).
@@ -185,8 +193,8 @@ Print Assumptions C10_dec_roundtrip.
    http.NewRequest[WithContext], and the transport failure reported by
    http.Client.Do): the error is returned unchanged, everything else is nil ---- *)
 Theorem C10_failure_returned_unchanged :
-  forall V X (decode : string -> body X -> dec_out V X) rs st x slots ev,
-  wf_results rs = true -> method_returns decode rs (OFail st x) = inr (slots, ev) ->
+  forall V X (decode : string -> body X -> dec_out V X) bv rs st x slots ev,
+  wf_results rs = true -> method_returns decode bv rs (OFail st x) = inr (Some (slots, ev)) ->
   slots = (repeat SNil (List.length rs - 1) ++ [SErr (EForeign x)])%list /\ ev = [] /\
   forall rv, view slots = Some rv ->
     rv_err rv = SErr (EForeign x) /\ rv_resp rv = SNil /\ (rv_result rv = None \/ rv_result rv = Some SNil).
@@ -195,25 +203,25 @@ Print Assumptions C10_failure_returned_unchanged.
 
 (* ---- whenever a response was received it is returned (error or not) ---- *)
 Theorem C10_response_always_returned :
-  forall V X (decode : string -> body X -> dec_out V X) rs r slots ev rv,
-  wf_results rs = true -> method_returns decode rs (OResp r) = inr (slots, ev) -> view slots = Some rv ->
+  forall V X (decode : string -> body X -> dec_out V X) bv rs r slots ev rv,
+  wf_results rs = true -> method_returns decode bv rs (OResp r) = inr (Some (slots, ev)) -> view slots = Some rv ->
   rv_resp rv = SResp r.
 Proof. exact mr_response_always. Qed.
 Print Assumptions C10_response_always_returned.
 
 (* ---- the result is nil on EVERY error path ---- *)
 Theorem C10_result_nil_on_every_error_path :
-  forall V X (decode : string -> body X -> dec_out V X) rs o slots ev rv,
-  wf_results rs = true -> method_returns decode rs o = inr (slots, ev) -> view slots = Some rv ->
+  forall V X (decode : string -> body X -> dec_out V X) bv rs o slots ev rv,
+  wf_results rs = true -> method_returns decode bv rs o = inr (Some (slots, ev)) -> view slots = Some rv ->
   rv_err rv <> SNil -> rv_result rv = None \/ rv_result rv = Some SNil.
 Proof. exact mr_error_nil_result. Qed.
 Print Assumptions C10_result_nil_on_every_error_path.
 
 (* ---- arity (cook.go: ErrReturnMap) and nil-ability of the result type ---- *)
 Theorem C10_returns_declared_number_of_values :
-  forall V X (decode : string -> body X -> dec_out V X) rs o slots ev,
+  forall V X (decode : string -> body X -> dec_out V X) bv rs o slots ev,
   wf_results rs = true -> single_names rs = true ->
-  method_returns decode rs o = inr (slots, ev) ->
+  method_returns decode bv rs o = inr (Some (slots, ev)) ->
   List.length slots = declared_arity rs.
 Proof. exact mr_arity. Qed.
 Print Assumptions C10_returns_declared_number_of_values.
@@ -234,8 +242,9 @@ Print Assumptions C10_refuted_K_rest_array_result.
 (* open finding K_rest_multi_name_result: `(a, b *http.Response, err error)` is
    two fields but three values; the generator counts fields *)
 Theorem C10_refuted_K_rest_multi_name_result :
-  forall V X (decode : string -> body X -> dec_out V X) o,
-  exists rs slots ev, wf_results rs = true /\ method_returns decode rs o = inr (slots, ev) /\
+  forall V X (decode : string -> body X -> dec_out V X) bv o,
+  scenario_ok bv o = true ->
+  exists rs slots ev, wf_results rs = true /\ method_returns decode bv rs o = inr (Some (slots, ev)) /\
                       List.length slots <> declared_arity rs.
 Proof. exact multi_name_refuted. Qed.
 Print Assumptions C10_refuted_K_rest_multi_name_result.
@@ -244,8 +253,8 @@ Print Assumptions C10_refuted_K_rest_multi_name_result.
    received a response (defer resp_.Body.Close()); not part of the property
    text, compared by the correspondence ---- *)
 Theorem C10_body_closed_exactly_once :
-  forall V X (decode : string -> body X -> dec_out V X) rs r slots ev,
-  wf_results rs = true -> method_returns decode rs (OResp r) = inr (slots, ev) ->
+  forall V X (decode : string -> body X -> dec_out V X) bv rs r slots ev,
+  wf_results rs = true -> method_returns decode bv rs (OResp r) = inr (Some (slots, ev)) ->
   exists pre, ev = (pre ++ [BClose])%list /\ ~ In BClose pre.
 Proof. exact mr_body_closed_once. Qed.
 Print Assumptions C10_body_closed_exactly_once.
@@ -286,25 +295,38 @@ Definition ex_resp (s : Z) (b : string) : response nat :=
   {| r_id := 1; r_status := s; r_body := {| b_data := b; b_fault := None |} |}.
 
 Example C10_example_runs :
-  method_returns ex_decode ex_ptr (OResp (ex_resp 200 "{}"))
-    = inr ([SAddr 7%nat; SResp (ex_resp 200 "{}"); SNil], [BDecode; BClose]) /\
-  method_returns ex_decode ex_slice (OResp (ex_resp 204 ""))
-    = inr ([SVal 0%nat; SResp (ex_resp 204 ""); SNil], [BDecode; BClose]) /\
-  method_returns ex_decode ex_map (OResp (ex_resp 299 "oops"))
-    = inr ([SNil; SResp (ex_resp 299 "oops"); SErr (EForeign 9%nat)], [BDecode; BClose]) /\
-  method_returns ex_decode ex_ptr (OResp (ex_resp 404 "gone"))
-    = inr ([SNil; SResp (ex_resp 404 "gone"); SErr (EText "client error 404: gone")], [BReadAll; BClose]) /\
-  method_returns ex_decode ex_none (OResp (ex_resp 500 "boom"))
-    = inr ([SResp (ex_resp 500 "boom"); SErr (EText "server error 500: boom")], [BReadAll; BClose]) /\
-  method_returns ex_decode ex_map (OResp (ex_resp 304 "{}"))
-    = inr ([SNil; SResp (ex_resp 304 "{}"); SErr (EText "not supported error 304")], [BClose]) /\
-  method_returns ex_decode ex_ptr (OResp (ex_resp (-1) "{}"))
-    = inr ([SNil; SResp (ex_resp (-1) "{}"); SErr (EText "not supported error -1")], [BClose]) /\
-  method_returns ex_decode ex_ptr (OFail StDo 5%nat)
-    = inr ([SNil; SNil; SErr (EForeign 5%nat)], []) /\
-  method_returns ex_decode [{| f_names := []; f_type := TIdent "User" |}; resp_field; err_field] (OFail StDo 5%nat)
+  method_returns ex_decode false ex_ptr (OResp (ex_resp 200 "{}"))
+    = inr (Some ([SAddr 7%nat; SResp (ex_resp 200 "{}"); SNil], [BDecode; BClose])) /\
+  method_returns ex_decode false ex_slice (OResp (ex_resp 204 ""))
+    = inr (Some ([SVal 0%nat; SResp (ex_resp 204 ""); SNil], [BDecode; BClose])) /\
+  method_returns ex_decode false ex_map (OResp (ex_resp 299 "oops"))
+    = inr (Some ([SNil; SResp (ex_resp 299 "oops"); SErr (EForeign 9%nat)], [BDecode; BClose])) /\
+  method_returns ex_decode false ex_ptr (OResp (ex_resp 404 "gone"))
+    = inr (Some ([SNil; SResp (ex_resp 404 "gone"); SErr (EText "client error 404: gone")], [BReadAll; BClose])) /\
+  method_returns ex_decode false ex_none (OResp (ex_resp 500 "boom"))
+    = inr (Some ([SResp (ex_resp 500 "boom"); SErr (EText "server error 500: boom")], [BReadAll; BClose])) /\
+  method_returns ex_decode false ex_map (OResp (ex_resp 304 "{}"))
+    = inr (Some ([SNil; SResp (ex_resp 304 "{}"); SErr (EText "not supported error 304")], [BClose])) /\
+  method_returns ex_decode false ex_ptr (OResp (ex_resp (-1) "{}"))
+    = inr (Some ([SNil; SResp (ex_resp (-1) "{}"); SErr (EText "not supported error -1")], [BClose])) /\
+  method_returns ex_decode false ex_ptr (OFail StDo 5%nat)
+    = inr (Some ([SNil; SNil; SErr (EForeign 5%nat)], [])) /\
+  method_returns ex_decode true [{| f_names := []; f_type := TIdent "User" |}; resp_field; err_field] (OFail StDo 5%nat)
     = inl (FUnsupported "*ast.Ident").
 Proof. repeat split; vm_compute; reflexivity. Qed.
 
 Example C10_example_dec : dec 0 = "0" /\ dec 404 = "404" /\ dec (-17) = "-17" /\ dec 9223372036854775807 = "9223372036854775807".
 Proof. repeat split; vm_compute; reflexivity. Qed.
+
+(* the abstract Go rendered for the results `*User, *http.Response, error` on a body verb *)
+Example C10_example_emitted_program :
+  exists c, cook_results ex_ptr = inr c /\
+  emit c true =
+    [GCall StJoinPath [XNil; XNil; XErr]; GCall StMarshal [XNil; XNil; XErr];
+     GCall StNewRequest [XNil; XNil; XErr]; GCall StDo [XNil; XNil; XErr];
+     GDeferClose; GStatusSwitch;
+     GIfErrReturn [XNil; XResp; XErr];
+     GDecode "User"; GIgnoreEOF;
+     GIfErrReturn [XNil; XResp; XErr];
+     GReturn [XAddrVar; XResp; XNil]].
+Proof. eexists; split; reflexivity. Qed.
